@@ -283,8 +283,8 @@ class OPDFan(Wavefront):
 
         for i, field in enumerate(self.fields):
             for j, wavelength in enumerate(self.wavelengths):
-                wx = self.data[i][j][0][self.num_rays:]
-                wy = self.data[i][j][0][:self.num_rays]
+                wx = self.data[i][j][0][self.num_rays:].copy()
+                wy = self.data[i][j][0][:self.num_rays].copy()
 
                 intensity_x = self.data[i][j][1][self.num_rays:]
                 intensity_y = self.data[i][j][1][:self.num_rays]
